@@ -104,9 +104,10 @@ PROPS = {
     ),
     "C12": dict(
         props="props/C12.v",
-        libs=["theories/Settings.vo"],
-        streams=[dict(name="c12")],
-        mismatch_is_violation=True,   # the record in effect / the error class per placement is pinned by the property
+        libs=["theories/Settings.vo", "theories/CaseLib.vo"],
+        # c12: the record in effect / the error class per placement is pinned by the property;
+        # core-c12: what the generated code does with a wrap mode written on the method / the converter (error observables)
+        streams=[dict(name="c12", mismatch_is_violation=True), dict(name="core-c12", decisive_codes=[9, 10])],
         modelled="config/parse/parse.go Bool/String/Enum, config/common.go parseCommon (key table regenerated from the source), "
                  "config/converter.go parseConverterLine (key list regenerated), config/method.go parseMethodLine (key list regenerated; map/ignore/update/context/autoMap modelled, "
                  "enum:map/enum:transform/default and function references not), line order global -> converter -> method on a copied record (Settings.v)",
